@@ -89,6 +89,20 @@ func runC01(c *Ctx) {
 		r := mon.NewRand(uint64(c.Seed)).Sub(uint64(7000 + i))
 		k := c.Keys.Pick(r)
 		signer, verifier, via := pickSV(r, k)
+		if i%23 == 5 {
+			// hand-built / decoded COSE_Keys with every Algorithm field: whenever both a signer and a
+			// verifier come out of the same key, they must work together
+			if s2, v2, name, ok := c01keyVariant(r, c); ok {
+				signer, verifier, via = s2, v2, name
+				k = &gen.AlgKey{Alg: s2.Algorithm(), Name: s2.Algorithm().String()}
+			}
+		}
+		if i%29 == 7 {
+			if odd, err := gen.OddRSA(mon.Pick(r, cose.AlgorithmPS256, cose.AlgorithmPS384, cose.AlgorithmPS512)); err == nil {
+				k = odd[r.Intn(2)]
+				signer, verifier, via = k.Signer, k.Verifier, "odd-rsa-size"
+			}
+		}
 		mode := r.Intn(3)
 		ext := gen.External(r)
 		if mode == 2 && len(ext) == 0 {
@@ -817,4 +831,37 @@ func (e *c01env) hashEnvelope(r *mon.Rand, in map[string]any, base string, h cos
 	rec.Event("chain-complete")
 	rec.Class(fmt.Sprintf("hash-envelope/alg=%s/hash=%v/ct=%T/loc=%v/rawbase=%v", k.Name, ha, p.PreimageContentType, p.Location != "", rawBase))
 	rec.Sample("hash-envelope", map[string]any{"wire": hexs(env)})
+}
+
+// c01keyVariant builds a COSE_Key for a real EC key pair with a chosen
+// Algorithm field (unset, matching or another ECDSA algorithm), hand-built or
+// decoded, and returns the signer and verifier it yields (if it yields both).
+func c01keyVariant(r *mon.Rand, c *Ctx) (cose.Signer, cose.Verifier, string, bool) {
+	ci := r.Intn(3)
+	base := c.Keys.Keys[ci] // ES256/P-256, ES384/P-384, ES512/P-521
+	ck, err := cose.NewKeyFromPrivate(base.Priv)
+	if err != nil {
+		return nil, nil, "", false
+	}
+	algs := []cose.Algorithm{0, cose.AlgorithmES256, cose.AlgorithmES384, cose.AlgorithmES512}
+	ck.Algorithm = algs[r.Intn(4)]
+	name := fmt.Sprintf("key-variant/crv=%d/alg=%d", ci+1, int64(ck.Algorithm))
+	if r.Bool() {
+		b, err := ck.MarshalCBOR()
+		if err != nil {
+			return nil, nil, "", false
+		}
+		var d cose.Key
+		if d.UnmarshalCBOR(b) != nil {
+			return nil, nil, "", false
+		}
+		ck = &d
+		name += "/decoded"
+	}
+	s, e1 := ck.Signer()
+	v, e2 := ck.Verifier()
+	if e1 != nil || e2 != nil {
+		return nil, nil, "", false
+	}
+	return s, v, name, true
 }
